@@ -69,6 +69,8 @@ def cases(tier, seed):
         for k in range(1, d + 1):
             for idx in itertools.combinations(range(d), k):
                 cs.append({'scen': 'tt_sum', 's': {'N': N, 'M': M, 'R': R, 'index': list(idx), 'dtype': 'float64'}})
+    cs.append({'scen': 'tt_sum', 's': {'N': [2, 3, 2], 'R': [1, 2, 2, 1], 'index': [-1], 'dtype': 'float64'}})
+    cs.append({'scen': 'tt_sum', 's': {'N': [2, 3, 2], 'R': [1, 2, 2, 1], 'index': [0, -2], 'dtype': 'float64'}})
     cs.append({'scen': 'tt_sum', 's': {'N': [2, 3], 'R': [1, 2, 1], 'dtype': 'complex128'}})
     cs.append({'scen': 'tt_sum', 's': {'N': [2, 3], 'R': [1, 2, 1], 'index': [0], 'dtype': 'complex128'}})
     # ---- bilinear form
